@@ -286,6 +286,25 @@ CHECK_DEADLOCK FALSE
             use_stl = "no-stl" not in p.name and "no_stl" not in p.name
             cases.append({"id": i, "src": str(d / "p.fj"), "out": str(d / "p.fjm"), "w": 64, "version": 3, "stl": use_stl})
             meta[i] = ({"kind": "mutated", "site": "text", "w": 64, "version": 3}, text, [])
+        # sources that END too early (a file that stops inside its first / any statement), and sources that are not text
+        hello = (engines.REPO / "programs/print_tests/hello_no-stl.fj").read_bytes()
+        tiny = [b"def", b";(", b"ns", b"rep(", b"def m", b"def m {", b"def m x @ l <", b"ns a {", b"rep(3, i)", b"wflip", b"wflip 0,", b"pad", b"segment",
+                b"reserve", b"x =", b"x = (", b";", b"a:", b"\"", b"'", b"(", b")", b"{", b"}", b",", b"$", b"0;", b";0", b"-", b"1 ? 2 :", b"#", b"", b"\n", b"//"]
+        step = 7 if quick else 1
+        cuts = [hello[:k] for k in range(0, len(hello), step)]
+        notext = []
+        for _ in range(12 if quick else 200):
+            b = bytearray(hello)
+            pos = rng.randrange(len(b) + 1)
+            b[pos:pos] = rng.choice([b"\xff", b"\xfe\xff", b"\xc3\x28", b"\xe2\x82", b"\x80", b"\xf0\x28\x8c\x28", b"\x00"])
+            notext.append(bytes(b))
+        for k, raw in enumerate(tiny + cuts + notext):
+            i = len(cases)
+            d = base / f"t{k}"
+            d.mkdir()
+            (d / "p.fj").write_bytes(raw)
+            cases.append({"id": i, "src": str(d / "p.fj"), "out": str(d / "p.fjm"), "w": 64, "version": 3, "stl": False})
+            meta[i] = ({"kind": "mutated", "site": "text", "w": 64, "version": 3}, raw.decode("latin-1"), [])
         results = run_children(cases, base)
     finally:
         shutil.rmtree(base, ignore_errors=True)
